@@ -156,8 +156,14 @@ def history_suite(ctx):
             hist = [src, ["fill", 130]] + hist[:1]  # x, then more than a cache-full of other sources, then x again
         opts = r.choice([{}, {"safe": True}])
         cases.append((sha, src, fam, hist, opts))
+    # every second-wave family once with "x, more than a cache-full of other sources, x again"
+    seen_fam = set()
+    for (sha, src, fam) in sweep.generated_corpus2():
+        if fam not in seen_fam:
+            seen_fam.add(fam)
+            cases.append((sha, src, fam, [src, ["fill", 130]], {}))
     base = sweep.baseline("C05")
-    results = oracles.pmap(task_history, [(h, src, o) for (_sha, src, _fam, h, o) in cases])
+    results = oracles.pmap(task_history, [(h, src, o) for (_sha, src, _fam, h, o) in cases], isolate=True)
     # the same inputs in fresh interpreters (one interpreter per input would be exact; each fresh process formats ONE input)
     fresh_in = [(src, o) for (_sha, src, _fam, _h, o) in cases]
     fresh = fresh_results(fresh_in)
@@ -172,6 +178,11 @@ def history_suite(ctx):
             s.disagreements.append({"sha": sha, "src": src, "opts": o, "history": hist + [src],
                                     "what": "format_code(x) called twice in a row returns two different texts"})
         elif fr is not None and not fr.startswith("EXC ") and res["first"][1] != fr:
+            # process-to-process nondeterminism (C06) is not history dependence: two fresh interpreters must agree first
+            fr2 = fresh_results([(src, o)])[0]
+            if fr2 != fr:
+                s.count("nondeterministic-across-processes (C06)")
+                continue
             s.disagreements.append({"sha": sha, "src": src, "opts": o, "history": hist,
                                     "what": f"format_code(x) after a history of {len(hist)} calls differs from a fresh process"})
     s.note = "format_code(x) after random histories (0-7 earlier calls, sometimes x itself) vs a second call and vs a fresh interpreter per input; non-trivial = formatted without error"
